@@ -5,10 +5,11 @@
 //                              hlim::Circuit, through the public API (plus a Node_External subclass that exposes the protected
 //                              NodeIO primitives the way every node class does); full graph dump after every operation.
 //     mode "design":           a random frontend design of about <param> statements; full graph dump after construction and
-//                              after every pass boundary of the post-processing (variants: real DefaultPostprocessing as a whole,
-//                              MinimalPostprocessing as a whole, the DefaultPostprocessing pass sequence replayed through the
-//                              public Circuit methods with a dump after every pass, the same after shuffleNodes(), and a repeated
-//                              application of the sequence).
+//                              after every pass boundary of the post-processing (variants: real DefaultPostprocessing and
+//                              MinimalPostprocessing with a dump from the pass-boundary hook `hlim::verif_passBoundary` after
+//                              every pass, the DefaultPostprocessing pass sequence replayed through the public Circuit methods
+//                              with a dump after every pass, the same after shuffleNodes(), and a repeated application of the
+//                              sequence on an already post-processed, then shuffled circuit).
 //
 // Dump format (one graph):
 //   D <size>                                         size = number of node handles handed out so far
@@ -364,6 +365,13 @@ static void dumpAt(const char *what, hlim::Circuit &c) {
 	dumpGraph(std::cout, c, m, true);
 }
 
+// pass-boundary hook of /repo (guard GATERY_VERIF): called after every pass inside Default/MinimalPostprocessing
+static void hookBoundary(const char *pass, hlim::Circuit &c) { dumpAt(pass, c); }
+struct HookScope {
+	HookScope() { hlim::verif_passBoundary = &hookBoundary; }
+	~HookScope() { hlim::verif_passBoundary = nullptr; }
+};
+
 // DefaultPostprocessing::run replayed through the public methods, with a dump after every pass (Circuit.cpp:1675-1782)
 struct SteppedPostprocessing : public hlim::PostProcessor {
 	bool dumps;
@@ -543,8 +551,8 @@ static void runDesignCase(Rng &rng, uint64_t id, size_t nstmts) {
 			auto &circuit = design.getCircuit();
 			try {
 				switch (variant) {
-					case 0: case 5: design.postprocess(); dumpAt("postprocess", circuit); break;
-					case 1: circuit.postprocess(hlim::MinimalPostprocessing{}); dumpAt("postprocessMinimal", circuit); break;
+					case 0: case 5: { HookScope hk; design.postprocess(); } dumpAt("postprocess", circuit); break;
+					case 1: { HookScope hk; circuit.postprocess(hlim::MinimalPostprocessing{}); } dumpAt("postprocessMinimal", circuit); break;
 					case 2: circuit.postprocess(SteppedPostprocessing{true}); dumpAt("postprocessStepped", circuit); break;
 					case 3: circuit.shuffleNodes(); dumpAt("shuffleNodes", circuit); circuit.postprocess(SteppedPostprocessing{true}); dumpAt("postprocessStepped", circuit); break;
 					case 4: design.postprocess(); dumpAt("postprocess", circuit);
